@@ -400,7 +400,13 @@ def check_nav(c, st):
     # base) must not be affected by that
     st.monitor_evals += 1
     try:
-        for u in results:
+        # (last result first: each URL of the chain is compared with what it was before IT is edited, so an edit to a
+        # later result that reaches back into the URL it was navigated from is seen)
+        for u in reversed(results):
+            was_u = next((w for (o, w) in kept if o is u), None)
+            if was_u is not None and snap(u) != was_u:
+                return ('base-modified:by-editing-a-result', 'URL %r of the chain %r from %r reads %r after the caller edited '
+                        'the URL that navigate() returned from it' % (was_u[0], tuple(refs), base, u.to_text()))
             rooted = (not u.path_parts) or tuple(u.path_parts[:1]) == ('',)
             if rooted:
                 u.navigate('zz-warm/x')     # the URL has been navigated from before it is edited
